@@ -1,5 +1,6 @@
 //! `vh limits`: read a compiled font back for the C19 check (spec/Limits.tla, checks/c19.py).
 //!
+//! `vh limits std-names` prints the 258 standard Macintosh glyph names as a JSON array.
 //! stdin: ndjson requests
 //!   {"tag": "...", "font": "/path/out.ttf", "glyphs": ["a", ...], "locs": [[normalized coords], ...],
 //!    "pairs": [["a","b"], ...], "marks": [["base","mark"], ...]}
@@ -384,6 +385,11 @@ fn read_font(req: &Value) -> Result<Value, String> {
 }
 
 pub fn run(args: &[String]) -> i32 {
+    if args.first().map(|s| s.as_str()) == Some("std-names") {
+        // the 258 standard Macintosh glyph names (post format 2 needs no string for them)
+        println!("{}", json!(skrifa::raw::tables::post::DEFAULT_GLYPH_NAMES.to_vec()));
+        return 0;
+    }
     let input: Box<dyn BufRead> = match args.first() {
         Some(p) => match std::fs::File::open(p) {
             Ok(f) => Box::new(std::io::BufReader::new(f)),
